@@ -658,6 +658,10 @@ of `Close` works -/
 example : (closeF toyH 1 id ⟨zeros 3, 3, [7], [9], [1, 2, 3], false⟩ { flush := some 2 }).2 = some .flate :=
   close_reports_flush_failure id _ _ 2 rfl
 
+/-- `session_reports_flush_failure` instantiated -/
+example : (runSession toyH 1 id [7] [9] ⟨none, [([1, 2, 3], none)], { flush := some 2 }⟩).closeErr = some .flate :=
+  session_reports_flush_failure id [7] [9] _ 2 rfl
+
 /-- `write_failure_reported_by_close` instantiated: the second `Write` fails -/
 example : (runSession toyH 1 id [7] [9] ⟨none, [([1], none), ([2, 3], some 1)], {}⟩).closeErr = some .flate :=
   write_failure_reported_by_close id [7] [9] _ ⟨some .flate, by decide, by decide⟩
